@@ -234,7 +234,11 @@ def run(eng, rep):
     rule_projection_list(eng, rep)
     rule_scaling_off_with_projections(eng, rep)
     rule_at_least_one_sweep(eng, rep)
-    from .c15 import rule_limits_are_the_callers
-    rule_limits_are_the_callers(eng, rep, rule="C09-3b.dykstra-tests-the-callers-tolerance")
-    from .c15 import rule_projector_argument_is_not_reused
-    rule_projector_argument_is_not_reused(eng, rep, rule="C09-3c.the-point-handed-to-a-projector-is-not-read-again")
+    from .c15 import rule_limits_are_the_callers, rule_projector_argument_is_not_reused, rule_complete_sweeps
+    from ..loader import AnalysisError
+    for (r, rid) in ((rule_complete_sweeps, "C09-3d.dykstra-stops-only-after-the-last-set"), (rule_limits_are_the_callers, "C09-3b.dykstra-tests-the-callers-tolerance"),
+                     (rule_projector_argument_is_not_reused, "C09-3c.the-point-handed-to-a-projector-is-not-read-again")):
+        try:
+            r(eng, rep, rule=rid)
+        except AnalysisError as ex:
+            rep.unknown(rid, "dfols/util.py:dykstra", str(ex))
